@@ -15,7 +15,7 @@ CHECKS = {
          "DESIGN.md §4 C03",
          "For generated programs x levels 0..2 the emitted source must compile against the number-only runtime and the executable must produce the interpreter's stdout/stderr and way of ending on generated stdin. Exploration only, bounded by rustc throughput.",
          "trusted: rustc, the level-0 interpreter as yardstick (C01), process runner"),
- "C04": ("differential PBT vs independent two-phase reference parser over weighted Unicode alphabet; libFuzzer target fz_c04 in thorough",
+ "C04": ("differential PBT vs independent two-phase reference parser over weighted Unicode alphabet, in-process and through source files listed by `hyeong check`; libFuzzer target fz_c04 in thorough",
          "DESIGN.md §4 C04",
          "Arbitrary Unicode strings are parsed by the implementation and by a reference parser written from the grammar; kind, counts, area tree, location and raw text of every command are compared; no panic. Exploration only.",
          "trusted: reference parser (self-tested on the repository's documented examples)"),
